@@ -33,6 +33,17 @@ var probeObjs = func() []geojson.Object {
 	}
 }()
 
+func init() {
+	// probes at exactly the candidate midline latitudes / longitudes of the
+	// decimal-midline documents (bounding box [12.3,15.1] x [0.2,1])
+	for _, y := range midlines(0.2, 1.0, 2) {
+		probeObjs = append(probeObjs, geojson.NewPoint(geometry.Point{X: 12.32, Y: y}), geojson.NewPoint(geometry.Point{X: 12.349, Y: y}))
+	}
+	for _, x := range midlines(12.3, 15.1, 2) {
+		probeObjs = append(probeObjs, geojson.NewPoint(geometry.Point{X: x, Y: 0.61}))
+	}
+}
+
 // answers renders every observable geometry answer of o.
 func answers(o geojson.Object) (s string) {
 	defer func() {
@@ -288,6 +299,8 @@ func runC06(r *rt.Run) {
 	// large documents, as they are
 	large := docgen.LargeDocs()
 	r.Bounds["large_documents"] = len(large)
+	large = append(append(large, docgen.NumberDocs()...), docgen.MemberDocs()...)
+	r.Bounds["number_spelling_and_member_text_documents"] = len(large) - r.Bounds["large_documents"].(int)
 	r.ParFor(len(large), func(i int, w *rt.Worker) {
 		w.States++
 		w.Nontriv++
